@@ -80,18 +80,17 @@ Record assign_case := {
   ac_old : option value;         (* assigned first (a conforming value) *)
   ac_sealed : bool;              (* sealed before the assignment under test *)
   ac_ctor : bool;                (* H(x=v) instead of H().x = v *)
+  ac_checker : option checker;   (* x: Annotated[..., Choices([...])] / a user-defined checker *)
   ac_v : value;
   ac_ans : assign_answer
 }.
-
-Definition with_sealed (n : node) (b : bool) : node :=
-  {| n_cls := n_cls n; n_fields := n_fields n; n_pre := n_pre n; n_init := n_init n; n_sealed := b |}.
 
 Definition check_assign (cl : classes) (c : assign_case) : bool :=
   let a := ac_ans c in
   match declare_default cl (ac_annot c) (ac_default c) with
   | None => negb (aa_declared a)
-  | Some d =>
+  | Some d0 =>
+      let d := with_checker d0 (ac_checker c) in
       aa_declared a && Bool.eqb (a_required d) (aa_required a) &&
       opt_eqb tyexp_eqb (aa_ty a) (Some (a_ty d)) &&
       let cl' := cl ++ [ {| c_parents := []; c_task := false; c_args := [d] |} ] in
@@ -121,7 +120,8 @@ Record op_answer := {
   oa_raised : bool;          (* the call raised *)
   oa_delta : nat;            (* jobs the call added to the scheduler *)
   oa_job : bool;             (* afterwards: the object of the call (submitted task / assigned object) has a job *)
-  oa_init : list nat         (* afterwards: its init tasks *)
+  oa_init : list nat;        (* afterwards: its init tasks *)
+  oa_sealed : bool           (* afterwards: it is sealed *)
 }.
 
 Record graph_case := {
@@ -131,7 +131,7 @@ Record graph_case := {
 }.
 
 Definition subject (o : op) : nat :=
-  match o with OSubmit r _ => r | OValidate r => r | OSet m _ _ => m end.
+  match o with OSubmit r _ => r | OValidate r => r | OSet m _ _ => m | OInstance r => r end.
 
 Fixpoint natlist_eqb (a b : list nat) : bool :=
   match a, b with
@@ -154,6 +154,7 @@ Fixpoint check_ops (cl : classes) (s : session) (ops : list op) (ans : list op_a
       Nat.eqb (oa_delta a) (List.length (s_reg s') - List.length (s_reg s)) &&
       Bool.eqb (oa_job a) (mem (subject o) (s_jobs s')) &&
       natlist_eqb (oa_init a) (match nth_error (s_heap s') (subject o) with Some n => n_init n | None => [] end) &&
+      Bool.eqb (oa_sealed a) (match nth_error (s_heap s') (subject o) with Some n => n_sealed n | None => false end) &&
       check_ops cl s' ops' ans'
   | _, _ => false
   end.
